@@ -478,7 +478,7 @@ def explore(spec, tier, seed=0, nproc=None, known_active=(), time_limit_s=None, 
                     else:
                         summ.artifacts.add(lab)
                 if summ.confirmed:
-                    summ.incomplete = "exploration stopped after %d violated paths" % summ.by_status["violation"]
+                    summ.incomplete = "exploration stopped after %d violated paths" % summ.by_status.get("violation", 0)
                     break
     finally:
         if own_pool:
